@@ -223,7 +223,6 @@ fn p_c20() -> Profile {
 fn p_c05() -> Profile {
     let mut p = Profile::base();
     p.blob = Tri::Maybe;
-    p.blob_ingest = false;
     p.min_ops = 4;
     p.max_ops = 22;
     p.w[W_WRITE] = 30;
@@ -246,7 +245,6 @@ fn p_c05() -> Profile {
 fn p_c16() -> Profile {
     let mut p = Profile::base();
     p.blob = Tri::Maybe;
-    p.blob_ingest = false;
     p.filter_fn = Tri::Never;
     p.min_ops = 4;
     p.max_ops = 20;
@@ -276,7 +274,6 @@ fn nt_c16(s: &Stats) -> bool {
 fn p_c10() -> Profile {
     let mut p = Profile::base();
     p.blob = Tri::Maybe;
-    p.blob_ingest = false;
     p.min_ops = 3;
     p.max_ops = 16;
     p.w[W_INGEST] = 3;
@@ -507,7 +504,7 @@ pub fn all_props() -> Vec<PropDef> {
             engine: EngineKind::Multi,
             level: "exploration",
             decisive: &["multi", "point", "scan", "snapshot", "reopen"],
-            quick_runs: 2500,
+            quick_runs: 1300,
             thorough_runs: 30000,
             rule: "one run = 2-4 trees with independently drawn configurations (block size, restart interval, hash ratio, index/filter partitioning and pinning, filter policy incl. none and expect_point_read_hits, compression, standard/blob) opened in one process on one shared block cache (0 B, 1 KiB, 64 KiB, 16 MiB) and one shared descriptor table (none, 1, 2, 3, 256), fed one history in lock-step in a drawn order; after every step every tree re-reads every key, a full scan, len, first/last at the newest and at live snapshots, and once more after the other trees have run. evaluations = trees x runs. Non-trivial: configurations differ in >=3 knobs and the descriptor table (capacity <=3) is under pressure from >=2 tables.",
             profile: p_c11,
